@@ -132,8 +132,33 @@ NOTES = {
  'C16-disconnect-skips-borrowed-partner': 'disconnect uses try_borrow_mut on the partner and silently skips it when it is borrowed: the partner keeps a link into a device that is then (legitimately) dropped',
  'C17-to-dyn-evaluates-argument-twice': 'to_dyn! expands its argument expression twice ("type assertion"): `pool.pop().unwrap()` converts a different Reference than the one popped first, `slot.take().unwrap()` panics',
  'C19-unchecked-quantity-eq-via-partial-ord': 'builds without dimension checking only: Quantity == is "neither < nor >", so NaN == anything',
+ 'C03-sum-pairwise-above-eight-drops-stamp': 'SumStream sums more than eight present addends pairwise and combines the halves by value only: the stamp of the upper half is dropped (needs N >= 9)',
+ 'C08-geartrain-meshing-fast-path-squares': 'GearTrain "already meshing" fast path compares SQUARES: for readings around 1e19 and more (squares overflow) or 1e-23 and less (squares underflow) inconsistent readings are kept as they are',
+ 'C09-state-read-debug-assert-borrows-own-cell': 'a debug_assert! in the two-state read borrows the reader\'s own RefCell through the partner\'s back-pointer: reading through one\'s own mutable guard (write, then read back) panics, debug builds only',
+ 'C10-integral-reads-input-twice': 'IntegralStream::update reads its input twice (error check, then value): an input that changes between the two reads yields an error that update() returns but get() does not show, and no reset',
+ 'C11-integral-held-one-ulp-from-command': 'CommandPID stops integrating while the error is below one f32 step of a NON-ZERO command on two consecutive samples (a quantised sensor one step off target is never corrected)',
+ 'C13-axle-skips-command-following-terminal': 'Axle skips terminals that FOLLOW a command getter when it relays: such a terminal keeps its older followed command (or none)',
+ 'C15-history-getter-holds-clock-borrow-across-history': 'GetterFromHistory::get keeps its borrow of the clock alive while it asks the history: a history that takes exclusive access to the shared clock panics',
+ 'C20-encoder-skips-reading-with-held-stamp': 'encoder wrapper skips a reading whose STAMP equals the one its terminal already holds, although the value differs (coarse encoder clock)',
 }
 HISTORY = {
+ 'C03-sum-pairwise-above-eight-drops-stamp': 'MISSED at both tiers: n-ary combinators were built with at most eight inputs. A tenth of the random stream plans now use up to twelve, and the free-magma payload world builds sums and '
+   'products of 9..12, 16 and 33 inputs (the grouping of the fold is part of what it fingerprints). Caught at quick tier since (`C03|stream_timestamp|sum`).',
+ 'C08-geartrain-meshing-fast-path-squares': 'MISSED at both tiers: device readings were scaled 1/8..64. 6 % of the C08 runs now scale all readings by 1e19..1e30 or 1e-20..1e-27 (values whose squares leave the f32 range although they, '
+   'and every quantity the projection computes, do not). Caught at quick tier since.',
+ 'C09-state-read-debug-assert-borrows-own-cell': 'MISSED at both tiers: terminals were read through shared guards only. After every operation every terminal is now also read through its own MUTABLE guard (a RefMut derefs to &Terminal; '
+   '"write, then read back through the same guard" is ordinary safe code): no panic, same data. Caught at quick tier since.',
+ 'C10-integral-reads-input-twice': 'MISSED at both tiers (C05 too): scripted sensors only changed between operations. New fault FLAP: the sensor answers the first read of the next update as scripted and every later read with an error (a live '
+   'input: a datum that expires, a value another task overwrites); from the next operation on it holds that error. The model sees the first read, as a stream that reads its input once per update does (all of them do). Caught at '
+   'quick tier since. The absent-deletion twin is not built for histories with a flapping input.',
+ 'C11-integral-held-one-ulp-from-command': 'caught by C11/thorough only: samples one representable value away from the reference were generated around a ZERO setpoint / command only. 70 % of the ulp-walk runs with a non-zero '
+   'reference now "hover": every sample of the controlled component is the reference or 1..3 steps next to it. Caught at quick tier since.',
+ 'C13-axle-skips-command-following-terminal': 'MISSED at both tiers: device terminals followed getters of STATES only. Terminals can now follow COMMAND getters as well (ops TFC / TFCN; a tenth of the C13 runs, and the follower runs of '
+   'C08): the followed command is pulled into the terminal\'s own slot by the owning device at the start of every update, modelled for unlinked terminals; the bounded-progress bookkeeping stands down in such runs. Caught at quick tier since.',
+ 'C15-history-getter-holds-clock-borrow-across-history': 'MISSED at both tiers: the recording history never touched the clock it shares with its adapter. It can now be switched (op HTOUCH) to take exclusive access to that clock while it '
+   'answers and while it is updated, which the original permits because it has released the clock by then. Caught at quick tier since (`C15|panic|HGET`). Also new here: the ticking clock can stay on for whole stretches of a run '
+   '(op TICK), so constructors, set_time, the constant getter and the motion-profile adapter are all exercised on a clock that moves between two reads of one call.',
+ 'C20-encoder-skips-reading-with-held-stamp': 'MISSED at both tiers: encoder readings always carried fresh stamps. One reading in ten now reuses the stamp of the previous one with new values. Caught at quick tier since.',
  'C02-none-to-value-exclusive-clock-borrow': 'MISSED at both tiers: the harness never looked at a leaf or a clock itself while a node was being read. Scripted clocks can now be ONE shared Reference (Rc or RwLock, header `clockref`), '
    'and the second read of every RR step happens while shared borrows of all shared leaf and clock References are alive; it must not panic, must return (watchdog) and must equal the first read. The stateful-stream world does the same in a fifth of its runs (header `hold_inputs`: shared borrows of the node\'s input References are alive during every update and read). Caught at quick tier since '
    '(`C02|hang|comb`, `C02|panic_while_inputs_borrowed|n2v`).',
